@@ -161,7 +161,7 @@ def make_pairs(ctx, ck, rules, text, L, nsample, Lall, tag, reuse=False):
             ask.add((a, b))
     # packets that match a rule against EVERY key name: a key may match its rule only with the bindings carried
     # over from the packet (constraints naming patterns of the packet rule), so it need not be in `hit`
-    for a in (hit if len(hit) <= 25 else rng.sample(hit, 25)):
+    for a in (hit if len(hit) <= 20 else rng.sample(hit, 20)):
         for b in allidx:
             ask.add((a, b))
     for _ in range(nsample):
@@ -199,10 +199,10 @@ def make_pairs(ctx, ck, rules, text, L, nsample, Lall, tag, reuse=False):
 
 
 def stage_c(ctx, procs):
-    n = ctx.pick(45, 500)
+    n = ctx.pick(40, 500)
     L = ctx.pick(3, 4)
     Lall = 2
-    nsample = ctx.pick(800, 5000)
+    nsample = ctx.pick(500, 5000)
     gen = K.Gen(ctx.rng, signing=0.85, p_forward=0.2, p_redef=0.3, p_twin=0.6, force_twin=0.6, carried=0.5)
     recs, rejected, sid, nyes = [], 0, 0, 0
     while len(recs) < n and sid < 4 * n:
